@@ -320,14 +320,40 @@ contract('AioFile.dump', props=['C04'], yields=True, module=M,
          # crash points: before every file-system effect no file under a final name is incomplete ...
          call_requires=dict([(k, [NOPARTIAL]) for k in FS_CALLS] + [
              # ... and the rename that publishes the file happens only when every byte is in the temporary file
-             ('os.rename', [NOPARTIAL, 'FSYS.tmp[filename] == data'])]),
+             ('os.rename', [NOPARTIAL, 'filename is not None and FSYS.tmp[cast(filename, Str)] == data'])]),
          ensures=['self.path in FSYS.final_has', 'FSYS.final[self.path] == data', NOPARTIAL,
                   'forall(Str, lambda x: implies(x != self.path, FSYS.final[x] == old(FSYS.final)[x] '
                   '       and (x in FSYS.final_has) == old(x in FSYS.final_has)))'],
          raises={'OSError': [NOPARTIAL, 'FSYS.final == old(FSYS.final)', 'FSYS.final_has == old(FSYS.final_has)']},
          modifies=['FSYS.tmp', 'FSYS.final', 'FSYS.final_has', 'FSYS.fd_name', 'FSYS.fd_is_tmp', 'FSYS.partial'],
+         locals={'filename': 'Opt[Str]'},
          loops={0: dict(inv=['0 <= offset and offset <= data_len', 'data_len == len(data)', 'data_view == data',
-                             'fd in FSYS.fd_is_tmp and FSYS.fd_name[fd] == filename',
-                             'FSYS.tmp[filename] == substr(data, 0, offset)',
+                             'filename is not None and fd in FSYS.fd_is_tmp and FSYS.fd_name[fd] == cast(filename, Str)',
+                             'FSYS.tmp[cast(filename, Str)] == substr(data, 0, offset)',
                              'FSYS.final == old(FSYS.final)', 'FSYS.final_has == old(FSYS.final_has)', NOPARTIAL],
                         modifies=['FSYS.tmp', 'FSYS.final'])})
+
+# ---------------------------------------------------------------------------- DiskOps bodies: exception behaviour (C04)
+# The functional contracts of the DiskOps methods above are ASSUMED (they relate path strings and pickles to the
+# directory model).  What the callers rely on for crash tolerance is proved on the real bodies here: a missing file
+# surfaces as OSError (load() skips exactly that), and the delete helpers never raise.
+klass('AioFileView', fields={'path': 'Str'})
+extern('os.path.join', params={'a': 'Str', 'b': 'Str'}, returns='Str', pure=True)
+extern('os.remove', params={'path': 'Str'}, raises={'OSError': []},
+       notes='os.remove: FileNotFoundError / PermissionError are OSErrors')
+extern('AioFile.__init__', params={'self': 'AioFile', 'path': 'Str', 'tmp_dir': 'Opt[Str]'}, defaults={'tmp_dir': 'None'},
+       modifies=['self.path', 'self.tmp_dir'], ensures=['self.path == path'])
+extern('AioFile.pickle_load', params={'self': 'AioFile'}, returns='Any', yields=True,
+       raises={'FileNotFoundError': [], 'OSError': []},
+       notes='AioFile.pickle_load: os.open raises FileNotFoundError (an OSError) when the file is missing; a file under '
+             'a final name is complete (AioFile.dump), so unpickling it does not fail')
+extern('AioFile.pickle_dump', params={'self': 'AioFile', 'obj': 'Any'}, returns='Any', yields=True, raises={'OSError': []})
+for _m in ('read_meta', 'read_env'):
+    contract('DiskOps.%s#raises' % _m, qual='DiskOps.' + _m, module=M, props=['C04', 'C15'], yields=True,
+             params={'self': 'DiskOps', 'id': 'Str'}, returns='Any', raises={'OSError': []}, modifies=['fresh'])
+for _m in ('delete_env', 'delete_meta'):
+    contract('DiskOps.%s#raises' % _m, qual='DiskOps.' + _m, module=M, props=['C04', 'C15'],
+             params={'self': 'DiskOps', 'id': 'Str'}, modifies=['fresh'])
+for _m, _a in (('write_env', 'envelope'), ('write_meta', 'meta')):
+    contract('DiskOps.%s#raises' % _m, qual='DiskOps.' + _m, module=M, props=['C04'], yields=True,
+             params={'self': 'DiskOps', 'id': 'Str', _a: 'Any'}, raises={'OSError': []}, modifies=['fresh'])
